@@ -193,6 +193,23 @@ def position_label_uses(prog, res, modules=None, functions=None):
                     tagged[n.target.id] = (tagged[n.iter.id][0].rstrip("S"), tagged[n.iter.id][1])
                     changed = True
         for n in own_nodes(fi.node):
+            # positional / label-based *methods* given a tagged value: x.take(idx), np.take(x, idx) are positional; x.reindex(idx), x.drop(idx) label-based
+            if isinstance(n, ast.Call) and isinstance(n.func, ast.Attribute) and n.func.attr in ("take", "reindex", "drop"):
+                arg = None
+                if norm(n.func.value) in ("np", "numpy") and len(n.args) >= 2:
+                    arg = n.args[1]
+                elif n.args:
+                    arg = n.args[0]
+                if isinstance(arg, ast.Name) and arg.id in tagged and not tagged[arg.id][0].endswith("S"):
+                    kind, free = tagged[arg.id]
+                    wants = "POSITION" if n.func.attr == "take" else "LABEL"
+                    why = None
+                    if wants != kind and not free:
+                        src = "idx_ranges yields row positions" if kind == "POSITION" else "iter_slices yields index labels"
+                        why = (f"{src}, but `{norm(n)[:60]}` is {'positional' if wants == 'POSITION' else 'label-based'}: on a table whose index is not 0..n-1 "
+                               "(any filtered or per-chromosome subset) the wrong rows are selected")
+                    yield fi, n, kind, why
+                continue
             if not (isinstance(n, ast.Subscript) and isinstance(n.slice, ast.Name) and n.slice.id in tagged):
                 continue
             kind, free = tagged[n.slice.id]
